@@ -53,9 +53,21 @@ thread_local! {
     static INPUT_LEN: Cell<usize> = Cell::new(0);
     static CTX_CALLS: RefCell<Vec<HookCall>> = RefCell::new(Vec::new());
     static FUEL: Cell<usize> = Cell::new(0);
+    static FUEL_LIMIT: Cell<usize> = Cell::new(FUEL_DEFAULT);
 }
 
-pub const FUEL_EVENTS: usize = 400_000;
+/// default tracer event budget per parse; checks that have run the oracle first lower it to a multiple of the
+/// oracle's own rule-call count (`set_fuel_from_oracle`), so non-termination is detected quickly but never
+/// on a parse the oracle finished
+pub const FUEL_DEFAULT: usize = 400_000;
+
+pub fn set_fuel(n: usize) {
+    FUEL_LIMIT.with(|f| f.set(n));
+}
+
+pub fn set_fuel_from_oracle(rule_calls: usize) {
+    set_fuel(rule_calls.saturating_mul(8) + 4_000);
+}
 pub const MAX_TRACE_DEPTH: usize = 4000;
 
 pub fn push_ctx_calls(v: Vec<HookCall>) {
@@ -73,7 +85,7 @@ fn push_ev(e: TEv) {
     FUEL.with(|f| {
         let n = f.get() + 1;
         f.set(n);
-        if n > FUEL_EVENTS {
+        if n > FUEL_LIMIT.with(|l| l.get()) {
             panic!("VERIF_FUEL: tracer event budget exceeded");
         }
     });
